@@ -72,7 +72,7 @@ theorem execLoop_codes (limit : Option Nat) (runner : Runner) :
           intro lim
           have h2 := this.2 lim
           rwa [show idx + (j + 1) = idx + 1 + j by omega] at h2
-        rcases ih os (idx + 1) (now + tc.wait + (runner idx (limOf limit tc now)).2) (acc ++ [o])
+        rcases ih os (idx + 1) (startOf limit tc now + (runner idx (limOf limit tc now)).2) (acc ++ [o])
             (limits ++ [limOf limit tc now]) hlen' hr' with ⟨hs, j, tc', o', h1, h2, h3⟩ | ⟨hok, hno⟩
         · left
           exact ⟨hs, j + 1, tc', o', by simpa using h1, by simpa using h2, h3⟩
